@@ -15,7 +15,8 @@ import (
 )
 
 type c11Op struct {
-	K       string `json:"k"` // arrive | release | sleep | cancel
+	K       string `json:"k"` // arrive | release | sleep | cancel | setlimit
+	N       int    `json:"n,omitempty"`
 	Idx     int    `json:"idx,omitempty"`
 	Outcome int    `json:"outcome,omitempty"`
 	D       int    `json:"d,omitempty"` // sleep ms
@@ -62,15 +63,17 @@ func genC11(t *rapid.T) c11Case {
 		}
 	}
 	op := rapid.Custom(func(t *rapid.T) c11Op {
-		switch k := rapid.IntRange(0, 11).Draw(t, "k"); {
+		switch k := rapid.IntRange(0, 12).Draw(t, "k"); {
 		case k < 4:
 			return c11Op{K: "arrive"}
 		case k < 7:
 			return c11Op{K: "release", Idx: rapid.IntRange(0, 50).Draw(t, "idx"), Outcome: rapid.IntRange(0, 2).Draw(t, "outcome")}
 		case k < 10:
 			return c11Op{K: "sleep", D: rapid.SampledFrom([]int{1, 3, 5, 8, 8, 15, 30}).Draw(t, "d")}
-		default:
+		case k < 11:
 			return c11Op{K: "cancel", Idx: rapid.IntRange(0, 50).Draw(t, "idx")}
+		default:
+			return c11Op{K: "setlimit", N: rapid.IntRange(1, 3).Draw(t, "n")}
 		}
 	})
 	// a burst of arrivals first so that a backlog exists, then the generated mix
@@ -113,7 +116,7 @@ func runC11InBubble(c c11Case) (out kit.Outcome) {
 	var backlog []mw           // arrival order (oldest first)
 	var held []*vtCaller       // granted, token not completed
 	expected := map[int]bool{} // caller id -> expected ok, for callers expected to have returned
-	var sawChoice, sawGoneAhead bool
+	var sawChoice, sawGoneAhead, sawSetLimit bool
 	goneAhead := false // some caller that was ahead in line left by timeout/cancel
 
 	finish := func(reason string) kit.Outcome {
@@ -178,7 +181,7 @@ func runC11InBubble(c c11Case) (out kit.Outcome) {
 			k := op.Idx % len(held)
 			h := held[k]
 			held = append(held[:k], held[k+1:]...)
-			if len(backlog) > 0 {
+			if len(backlog) > 0 && len(held) < limit {
 				j := 0
 				if lifo {
 					j = len(backlog) - 1
@@ -199,6 +202,19 @@ func runC11InBubble(c c11Case) (out kit.Outcome) {
 			time.Sleep(time.Duration(op.D) * time.Millisecond)
 			synctest.Wait()
 			expire(w.now())
+		case "setlimit":
+			// the enforced limit changes while tokens are out and callers wait (a release that frees no
+			// usable capacity must leave the line untouched)
+			switch {
+			case st.simple != nil:
+				st.simple.SetLimit(op.N)
+			case st.precise != nil:
+				st.precise.SetLimit(op.N)
+			default:
+				continue
+			}
+			limit = op.N
+			sawSetLimit = true
 		case "cancel":
 			if len(backlog) == 0 {
 				continue
@@ -228,6 +244,9 @@ func runC11InBubble(c c11Case) (out kit.Outcome) {
 	}
 	if sawGoneAhead {
 		out.Labels = append(out.Labels, "left-ahead-in-line")
+	}
+	if sawSetLimit {
+		out.Labels = append(out.Labels, "limit-changed")
 	}
 	return out
 }
